@@ -5,6 +5,16 @@
 //! compared with entries O..O+K of the exhaustive (address, key) list obtained on the SAME
 //! searcher with a non-pruning collector (scores) and from the generator's model (fast-field,
 //! tweaked and custom keys), sorted by (key per comparator, address ascending).
+//!
+//! Corpus profiles beyond the generic ones: `Dense` (ten mid-frequency words, heavy-tailed tf:
+//! conjunctions of 4-8 term clauses - block-max intersection with >= 3 secondaries - keep many
+//! matches), `Short` / `Sparse` (average field length a small fractional number resp. < 1 token,
+//! few (length, tf) shapes that tie massively and lie close in BM25, half of them in ONE segment,
+//! where the index-time block-max metadata must be exact), fast-field values drawn with
+//! per-segment weights (the tie group of a page cut spans several segments unevenly). Search
+//! plans beyond the (K,O) grid: small K on every query that can take a block-max path, and
+//! O+K just below the match count of >= 4 segments (the merge of the per-segment lists has to
+//! cut repeatedly).
 #[path = "scshared/mod.rs"]
 mod scshared;
 
@@ -954,14 +964,9 @@ fn gen_corpus(rng: &mut Rng, quick: bool) -> Corpus {
         Mode::Dense,
         Mode::Short,
         Mode::Short,
+        Mode::Short,
         Mode::Sparse,
     ]);
-    let mode = match std::env::var("C06_TMP_MODE").as_deref() { // TMPDEBUG
-        Ok("Short") => Mode::Short, // TMPDEBUG
-        Ok("Sparse") => Mode::Sparse, // TMPDEBUG
-        Ok("Dense") => Mode::Dense, // TMPDEBUG
-        _ => mode, // TMPDEBUG
-    }; // TMPDEBUG
     let size_class = match mode {
         // posting lists of the frequent words must span several full 128-document blocks
         Mode::Short => rng.weighted(&[0, 2, 3, 5, 1]),
@@ -1071,8 +1076,8 @@ fn gen_corpus(rng: &mut Rng, quick: bool) -> Corpus {
     let p_single: u64 = *rng.pick(&[30u64, 50, 70, 85]);
     let p_long: u64 = *rng.pick(&[3u64, 8, 15, 30]);
     let long_max = *rng.pick(&[8usize, 12, 24, 40]);
-    // Short / Sparse, every second corpus: documents of a few (length, tf) shapes only
-    let few_shapes: Option<FewShapes> = if matches!(mode, Mode::Short | Mode::Sparse) && rng.bool() {
+    // Short / Sparse, two corpora out of three: documents of a few (length, tf) shapes only
+    let few_shapes: Option<FewShapes> = if matches!(mode, Mode::Short | Mode::Sparse) && rng.chance(2, 3) {
         let nv = rng.urange(2, 4);
         let l1 = *rng.pick(&[1usize, 1, 1, 2, 2, 3, 4]);
         let t1 = if rng.bool() { l1 } else { rng.urange(1, l1) };
@@ -1679,13 +1684,20 @@ fn check_exact(
             format!("tuple4-key-ignores-component-order:{p}")
         } else if p == "strictly-better-document-left-out" && !extra_sig.is_empty() {
             format!("block-max-segment-local-avgdl:{p}[{}]", c.kind.family())
+        } else if p == "tie-not-broken-by-ascending-address" && !extra_sig.is_empty() {
+            // the same defect seen through a tie: the document whose block was skipped on a stale
+            // bound has exactly the score of the document that took its place (from another
+            // segment or a later block), so the symptom is a wrong tie-break instead of a worse key
+            format!(
+                "block-max-segment-local-avgdl:equal-score-document-with-smaller-address-left-out[{}]",
+                c.kind.family()
+            )
         } else {
             // (the former `merge-unsorted-segment-results:` attribution is gone: that defect was
             // repaired in /repo ee7ed766f; `merge_truncates` only feeds a reach counter now)
             let _ = merge_truncates;
             format!("{}:{}", c.kind.family(), p)
         };
-        if std::env::var("C06_TMP_LOG").is_ok() { eprintln!("TMPV {} {} {} nseg={} K={k} O={o} m={m} {} {} {} {}", c.corpus_desc["case"], c.corpus_desc["mode"], sig, c.corpus_desc["segments"], c.qdesc, c.kind.name(), c.corpus_desc["max_docs"], c.corpus_desc["fast_field_values"]); } // TMPDEBUG
         rep.violation(
             sig,
             json!({
@@ -1772,7 +1784,6 @@ fn check_approx(
         } else {
             format!("{}:{}[float-sum]", c.kind.family(), p)
         };
-        if std::env::var("C06_TMP_LOG").is_ok() { eprintln!("TMPV {} {} {} nseg={} K={k} O={o} m={m} {} {} {} {}", c.corpus_desc["case"], c.corpus_desc["mode"], sig, c.corpus_desc["segments"], c.qdesc, c.kind.name(), c.corpus_desc["max_docs"], c.corpus_desc["fast_field_values"]); } // TMPDEBUG
         rep.violation(
             sig,
             json!({
@@ -2398,18 +2409,19 @@ fn case(case: u64, rng: &mut Rng, rep: &mut Report, quick: bool) {
 fn main() {
     let ctx = Ctx::from_env("C06", "exploration");
     let quick = ctx.quick();
-    let n = ctx.scale(450, 5000) as u64;
+    let n = ctx.scale(480, 5000) as u64;
     let rep = run_cases(&ctx, "topk", n, |c, rng, rep| case(c, rng, rep, quick));
     simple_finish(
         &ctx,
         rep,
-        "evaluation = one TopDocs search (a (K,O) grid point or one page of a paging run) compared with entries O..O+K of the exhaustive list of the same searcher (own non-pruning scoring collector; fast-field / tweak / custom keys from the generator's model) ordered by (key per documented comparator, address asc). Exact comparison for single scoring clauses, two-term sums and all non-score keys; 4*n ulp tolerance for float sums of n>=3 clauses. Non-trivial = K+O < matches and (a tie exactly at the page boundary or a query term whose posting list spans more than one 128-doc block in some segment). Distinct = query kind x collector flavour x K class x O class x segment count x executor x tie x posting size class x deletes.",
+        "evaluation = one TopDocs search (a (K,O) grid point or one page of a paging run) compared with entries O..O+K of the exhaustive list of the same searcher (own non-pruning scoring collector; fast-field / tweak / custom keys from the generator's model) ordered by (key per documented comparator, address asc). Exact comparison for single scoring clauses, two-term sums and all non-score keys; 4*n ulp tolerance for float sums of n>=3 clauses. Corpora: Ties / BlockMax / Random / Skew plus Dense (4-8 clause term conjunctions with many matches), Short and Sparse (average body length 1-5 tokens resp. < 1 token, few (length, tf) shapes, half of them single-segment) and fast-field values with per-segment weights; extra order_by_score searches with K in 1..50 on every term-only query over posting lists with full blocks; O+K placed just below the match count of >= 4 segments. Non-trivial = K+O < matches and (a tie exactly at the page boundary or a query term whose posting list spans more than one 128-doc block in some segment). Distinct = query kind x collector flavour x K class x O class x segment count x executor x tie x posting size class x deletes.",
         ctx.scale(400, 6000),
         &[
             "the exhaustive pass uses Weight::for_each (scorer.score() for every alive match); TopDocs::order_by_score uses Weight::for_each_pruning",
             "fast-field keys of the oracle come from the generated documents (looked up through the `id` fast field), not from tantivy's column readers",
             "f64 keys never contain NaN or -0.0; date keys are whole seconds (the default fast-field precision); negative boosts are not generated",
             "score keys are 'exact' for one scoring leaf or the sum of exactly two plain term clauses (float addition is commutative); otherwise 4*n ulp",
+            "a left-out document is attributed to the known segment-local-avgdl defect only for order_by_score over >= 2 segments on a term-only query when the document lies in a full posting block whose stored (fieldnorm, tf) pair - recomputed under the segment's own average length - scores below the block's true maximum under the searcher-wide average; in a single segment no such attribution exists",
             "tuple keys (2, 3 and 4 components mixing u64/i64/f64/date/bool/string fast fields, a custom computer and the score) are ordered lexicographically by the component comparators, then by address; K/O cuts are placed inside groups tied on a key prefix in segments holding more matches than O+K",
         ],
     );
